@@ -252,6 +252,14 @@ func (l *Lexer) peekChar() byte {
 	return l.input[l.readPosition]
 }
 
+// peekChar2 looks two characters ahead (0 at the end of the input)
+func (l *Lexer) peekChar2() byte {
+	if l.readPosition+1 >= len(l.input) {
+		return 0
+	}
+	return l.input[l.readPosition+1]
+}
+
 func (l *Lexer) prevChar() byte {
 	if l.readPosition < 2 {
 		// there is no previous character at the first byte of the input
@@ -309,7 +317,7 @@ func (l *Lexer) readHTML() string {
 	position := l.position
 
 	for l.ch != 0 {
-		if l.ch == '\\' && l.prevChar() == '\\' && l.peekChar() == '<' {
+		if l.ch == '\\' && l.prevChar() == '\\' && l.peekChar() == '<' && l.peekChar2() == '%' {
 			// escape escaping
 			l.readChar()
 			x := l.input[position : l.position-1]
@@ -317,7 +325,7 @@ func (l *Lexer) readHTML() string {
 		}
 
 		// allow for expression escaping using \<% foo %>
-		if l.ch == '\\' && l.peekChar() == '<' {
+		if l.ch == '\\' && l.peekChar() == '<' && l.peekChar2() == '%' {
 			l.readChar()
 			l.readChar()
 		}
